@@ -1,0 +1,8 @@
+//go:build !verif
+
+package machine
+
+// verifPoint is a schedule point used by the verification harness. Without
+// the `verif` build tag it is an empty function that the compiler inlines
+// away.
+func verifPoint(*Machine, string) {}
